@@ -29,7 +29,7 @@ func init() {
 	core.Register(&core.Spec{
 		ID:    "C14",
 		Level: "exploration",
-		Rule: "projects: (a) reflection-filled types.Project values (every exported field of every reachable type non-zero: 2-element maps and slices, non-nil pointers, real env/label files) with seeded names/profiles/dependency DAG, (b) projects loaded from fixed documents; operations: WithProfiles, WithServicesEnabled, WithServicesDisabled, WithSelectedServices (3 policies), WithoutUnnecessaryResources, WithImagesResolved, WithServicesEnvironmentResolved (both flags), WithServicesLabelsResolved (both flags), WithServicesTransform, ForEachService (callback mutates what it is handed), MarshalYAML/JSON with and without WithSecretContent; seeded sequences of 1..4 operations. After every step: receiver deep-equal to the harness's own snapshot; fields the operation does not concern deep-equal to the receiver's; address scan for shared maps/slices/pointers between receiver (and every earlier project of the sequence) and result; then every map, slice element and pointee reachable from the result is overwritten and the receiver compared to its snapshot again. Non-trivial = the operation returned a project with at least one service; distinct = distinct (project seed, operation sequence).",
+		Rule:  "projects: (a) reflection-filled types.Project values (every exported field of every reachable type non-zero: 2-element maps and slices, non-nil pointers, real env/label files) with seeded names/profiles/dependency DAG, (b) projects loaded from fixed documents; operations: WithProfiles, WithServicesEnabled, WithServicesDisabled, WithSelectedServices (3 policies), WithoutUnnecessaryResources, WithImagesResolved, WithServicesEnvironmentResolved (both flags), WithServicesLabelsResolved (both flags), WithServicesTransform, ForEachService (callback mutates what it is handed), MarshalYAML/JSON with and without WithSecretContent; seeded sequences of 1..4 operations. After every step: receiver deep-equal to the harness's own snapshot; fields the operation does not concern deep-equal to the receiver's; address scan for shared maps/slices/pointers between receiver (and every earlier project of the sequence) and result; then every map, slice element and pointee reachable from the result is overwritten and the receiver compared to its snapshot again. Non-trivial = the operation returned a project with at least one service; distinct = distinct (project seed, operation sequence).",
 		Assumptions: []string{
 			"snapshots are taken by the harness's own reflective deep copy, not by the library's generated copy code",
 			"values stored in Extensions maps (opaque payloads) may be shared, the Extensions maps themselves may not",
@@ -551,11 +551,11 @@ func drawOp(rng *rand.Rand, p *types.Project) Op {
 // ---- one sequence ----------------------------------------------------------------
 
 type seqCase struct {
-	Source  string `json:"source"` // filled | loaded
+	Source   string `json:"source"` // filled | loaded
 	ProjSeed int64  `json:"proj_seed"`
-	NSvc    int    `json:"nsvc"`
-	Doc     int    `json:"doc"`
-	Ops     []Op   `json:"ops"`
+	NSvc     int    `json:"nsvc"`
+	Doc      int    `json:"doc"`
+	Ops      []Op   `json:"ops"`
 }
 
 func equalExact(a, b any, ignore ...string) string {
@@ -733,12 +733,12 @@ var docs = []func() *ld.Case{
 	func() *ld.Case {
 		return &ld.Case{ComposeFiles: []string{"compose.yaml"}, Env: map[string]string{"FOO": "bar", "SEC": "s3cr3t"}, Files: map[string]string{
 			"compose.yaml": "services:\n  web:\n    image: nginx\n    networks: {front: {aliases: [w]}}\n    volumes: [\"data:/d\", \"./x:/x\"]\n    secrets: [sec]\n    configs: [cfg]\n    depends_on: [db]\n    env_file: [a.env]\n    environment: [FOO]\n    labels: {a: b}\n    label_file: [l.labels]\n  db:\n    image: postgres\n    profiles: [p]\n    networks: [back]\n  job:\n    image: job\n    profiles: [q]\n    depends_on: {db: {condition: service_started, required: false}}\nnetworks:\n  front: {labels: {x: y}, ipam: {config: [{subnet: 10.0.0.0/24}]}}\n  back: {}\n  unused: {labels: {u: v}}\nvolumes:\n  data: {labels: {l: m}}\n  unusedv: {}\nsecrets:\n  sec: {environment: SEC}\n  other: {file: ./o.txt}\nconfigs:\n  cfg: {content: hello}\n",
-			"a.env": "A=1\n", "l.labels": "lf=1\n", "o.txt": "x"}, Opts: ld.Opts{Profiles: []string{"p"}}}
+			"a.env":        "A=1\n", "l.labels": "lf=1\n", "o.txt": "x"}, Opts: ld.Opts{Profiles: []string{"p"}}}
 	},
 	func() *ld.Case {
 		return &ld.Case{ComposeFiles: []string{"compose.yaml"}, Files: map[string]string{
 			"compose.yaml": "services:\n  a:\n    build: {context: ., args: {X: \"1\"}, secrets: [bs]}\n    deploy: {resources: {limits: {cpus: \"1\"}, reservations: {devices: [{capabilities: [gpu]}]}}}\n    ulimits: {nofile: 5}\n    extra_hosts: [\"h=1.1.1.1\"]\n    x-svc: {k: [1, 2]}\n  b:\n    image: b\n    network_mode: \"service:a\"\n  c:\n    image: c\n    links: [a]\n    volumes_from: [b]\nsecrets:\n  bs: {file: ./bs}\nx-top: {deep: {er: [1]}}\n",
-			"bs": "x"}}
+			"bs":           "x"}}
 	},
 }
 
